@@ -35,7 +35,7 @@ COMPONENTS = {
     "real": ["eolib.protocol.protocol_enum_meta.ProtocolEnumMeta", "generated enum modules (real generator run per tree)", "enum.IntEnum of the interpreter"],
     "stub_or_harness": ["construction-history generator", "registry snapshot oracle"],
 }
-PROBES = ["warnings_as_errors", "in_flow_read_then_write", "declared", "unknown", "unknown_repeated", "instance_passed_back", "negative", "huge", "none_member",
+PROBES = ["keyword_call_form", "exhaustive_switch_carrier", "warnings_as_errors", "in_flow_read_then_write", "declared", "unknown", "unknown_repeated", "instance_passed_back", "negative", "huge", "none_member",
           "boundary_252_253", "unknown_then_declared_same_class"]
 FAULT_KINDS = ["unknown_ordinal"]
 SHRINK_KEYS = ["ops"]
@@ -160,7 +160,18 @@ def add_carriers(tree):
         for i, name in enumerate(names):
             if name in ("PacketFamily", "PacketAction") and False:
                 continue
-            first = re.search(r'<enum name="%s"[^>]*>.*?<value name="([A-Za-z0-9_]+)"' % name, tree[rel], re.S).group(1)
+            body = re.search(r'<enum name="%s"[^>]*>(.*?)</enum>' % name, tree[rel], re.S).group(1)
+            value_names = re.findall(r'<value name="([A-Za-z0-9_]+)"', body)
+            first = value_names[0]
+            if 2 <= len(value_names) <= 5:
+                # a switch with a case for EVERY declared value and no default; only the last case carries data
+                cases = "".join(f'            <case value="{v}"/>\n' for v in value_names[:-1])
+                cases += (f'            <case value="{value_names[-1]}">\n                <field name="detail" type="char"/>\n'
+                          f'            </case>\n')
+                extra.append(f'    <struct name="{name}Carrier">\n        <field name="single" type="{name}"/>\n'
+                             f'        <switch field="single">\n{cases}        </switch>\n'
+                             f'        <array name="few" type="{name}" length="2"/>\n        <array name="rest" type="{name}"/>\n    </struct>')
+                continue
             extra.append(f'    <struct name="{name}Carrier">\n        <field name="single" type="{name}"/>\n'
                          f'        <switch field="single">\n            <case value="{first}">\n'
                          f'                <field name="detail" type="char"/>\n            </case>\n        </switch>\n'
@@ -270,7 +281,11 @@ def _execute(plan, env):
         vc = "instance" if arg is not None else _value_class(n, declared)
         res.keys.add(f"{shape}|{vc}|{int(n in seen_unknown[ci] or n in firsts[ci])}")
         try:
-            x = cls(arg if arg is not None else n)
+            if step % 7 == 3:
+                x = cls(value=arg if arg is not None else n)      # the same construction, argument passed by keyword
+                res.count("probe.keyword_call_form")
+            else:
+                x = cls(arg if arg is not None else n)
         except BaseException as e:  # noqa
             fail("construction-raised", f"{cls.__name__}({n}) raised {type(e).__name__}: {e}", step)
             break
@@ -369,10 +384,13 @@ def run_carrier(te, cls, declared, op, res, tr, step):
         values.append(values[-1])
     w = te.EoWriter()
     add = getattr(w, "add_" + ed.underlying)
-    first_ordinal = ed.values[0][1]
+    # which declared value carries case data in the carrier's switch (see add_carriers)
+    data_ordinal = ed.values[-1][1] if 2 <= len(ed.values) <= 5 else ed.values[0][1]
+    if 2 <= len(ed.values) <= 5:
+        res.count("probe.exhaustive_switch_carrier")
     for i, v in enumerate(values):
         add(v)
-        if i == 0 and v == first_ordinal:
+        if i == 0 and v == data_ordinal:
             w.add_char(7)           # the case data of the switch on `single`
     data = bytes(w.to_bytearray())
     carrier = te.bridge.cls(ename + "Carrier")
